@@ -253,3 +253,27 @@ def exc_site(exc):
             site = f'{os.path.basename(fn)}:{tb.tb_frame.f_code.co_name}'
         tb = tb.tb_next
     return site
+
+
+def alias_coords(rnd, lines, ln, col, end_ln, end_col, p=0.25):
+    """The same source rectangle spelled with the documented aliases of put_src/get_src coordinates: 'end', negative line numbers,
+    negative columns (relative to the end of THEIR line) and over-large columns (clipped). Returns a 4-tuple."""
+    n = len(lines)
+
+    def a_ln(l):
+        r = rnd.random()
+        if r < p / 2:
+            return l - n
+        if r < p and l == n - 1:
+            return 'end'
+        return l
+
+    def a_col(l, c):
+        r = rnd.random()
+        L = len(lines[l])
+        if r < p / 2 and c < L:
+            return c - L
+        if r < p and c == L:
+            return rnd.choice(['end', L + rnd.randint(1, 5)])
+        return c
+    return a_ln(ln), a_col(ln, col), a_ln(end_ln), a_col(end_ln, end_col)
